@@ -28,7 +28,7 @@ EXPLANATION = (
     "and nothing that can raise follows it; R9 on_request needs one byte outside its try and abort() cannot raise "
     "(integer multiplexer from construction); R10 value precedence callbacks -> data_store -> value -> default -> abort, "
     "each source selected by presence (is not None / KeyError), never by truthiness; R11 an accepted download stores an "
-    "immutable copy of exactly the transferred bytes; R12 every segmented transfer starts from a fresh buffer and toggle 0."
+    "immutable copy of exactly the transferred bytes; R12 every segmented transfer starts from a fresh buffer and toggle 0. R14 no class-level mutable object is mutated in place by instances (each node/client/map/dictionary has its own state)."
 )
 ASSUMPTIONS = [
     "not decided: values for generated object dictionaries and request histories; read/write callbacks are opaque",
@@ -232,6 +232,10 @@ def _conservation(chk, repo, folder):
                 chk.check(ff.is_form(s_.value, "4 - ((command >> 2) & 0x3)"), "R4", f"{SV}:SdoServer.init_download | expedited size (sized)", f.loc(s_), src(s_))
             else:
                 chk.check(folder.try_fold(s_.value, ff.scope, None) == 4, "R4", f"{SV}:SdoServer.init_download | expedited size (unsized)", f.loc(s_), src(s_))
+
+    # ------------------------------------------------------------------ R14 instances are independent (shared clause)
+    from . import shared as _shared
+    _shared.isolation(chk, "R14", rels=['canopen/sdo/server.py', 'canopen/sdo/base.py', 'canopen/node/local.py', 'canopen/objectdictionary/__init__.py', 'canopen/objectdictionary/datatypes.py'])
 
 
 def _exhausted_pred(ff, folder, test, pol, after_delete, delnode):
